@@ -942,6 +942,66 @@ def wl_legacy_sdmx(p):
     return out
 
 
+# ---------------------------------------------------------------------------------
+# CiderPress call-backs that run inside PySCF's own parallel regions (libcgto's evaluation
+# driver): the fractional-Laplacian contraction/evaluation routines of frac_lapl.c and the SDMX
+# contraction routines used by the descriptor-generation ("slow") SDMX generator.  These cases
+# run in a child process that has the simulated runtime pre-loaded (engine: via_child), so
+# that PySCF's regions are simulated teams too.
+# ---------------------------------------------------------------------------------
+def draw_pyscf_region_params(rng):
+    return {
+        "mol": rng.choice(TINY_MOLS + ["OH", "O"]),
+        "basis": rng.choice(["sto-3g", "6-31g", "def2-svp", "cc-pvdz", "def2-tzvp"]),
+        "ngrids": _size(rng, [1, 3, 56, 57, 112, 200], 420),
+        "slst": rng.choice([[0.5], [0.5, -0.5], [1.0, 0.25, -0.25], [-0.5]]),
+        "n1": rng.choice([0, 0, 1]),
+        "cutoff": rng.choice([None, None, 1e-10, 1e-6]),
+        "spread": rng.choice([1.5, 4.0, 8.0]),
+        "kind": rng.choice(SDMX_KINDS),
+        "nspin": rng.choice([1, 2]),
+        "sseed": rng.below(10**6),
+        "dseed": rng.below(10**6),
+    }
+
+
+def wl_pyscf_flapl(p):
+    from ciderpress.pyscf.frac_lapl import eval_flapl_gto, eval_kao
+    from cidersim import zoo
+
+    mol = zoo.make_mol(p["mol"], p["basis"])
+    r = np.random.default_rng(p["dseed"])
+    coords = r.normal(size=(p["ngrids"], 3)) * p["spread"]
+    out = {}
+    for d in (0, 1):
+        out["flapl.deriv%d" % d] = np.array(eval_flapl_gto(list(p["slst"]), mol, coords, deriv=d, cutoff=p["cutoff"]))
+    n1 = min(int(p["n1"]), len(p["slst"]))
+    out["kao"] = np.array(eval_kao(list(p["slst"]), mol, coords, deriv=0, cutoff=p["cutoff"], n1=n1))
+    return out
+
+
+def wl_pyscf_slow_sdmx(p):
+    from ciderpress.pyscf import sdmx_slow
+    from cidersim import zoo
+
+    rng = Rng(derive("omp-slow-sdmx", p["sseed"]))
+    st = zoo.make_settings(p["kind"], rng, normalizer=False)
+    mol = zoo.make_mol(p["mol"], p["basis"])
+    r = np.random.default_rng(p["dseed"])
+    coords = r.normal(size=(p["ngrids"], 3)) * 1.5
+    gen = sdmx_slow.EXXSphGenerator.from_settings_and_mol(st.sdmx_settings, p["nspin"], mol)
+    nao = mol.nao_nr()
+    dms = []
+    for _ in range(p["nspin"]):
+        a = r.normal(size=(nao, nao))
+        dms.append(a.dot(a.T) / nao)
+    dm = np.ascontiguousarray(np.stack(dms)) if p["nspin"] > 1 else dms[0]
+    feat = gen.get_features(dm, mol, coords)
+    return {"feat": np.array(feat)}
+
+
+WORKLOADS["pyscf_flapl"] = (draw_pyscf_region_params, wl_pyscf_flapl)
+WORKLOADS["pyscf_slow_sdmx"] = (draw_pyscf_region_params, wl_pyscf_slow_sdmx)
 WORKLOADS["legacy_direct"] = (draw_legacy_params, wl_legacy_direct)
 WORKLOADS["legacy_sdmx"] = (draw_legacy_params, wl_legacy_sdmx)
 
